@@ -234,7 +234,34 @@ pub struct Out {
     /// field audit: path of every serialised leaf field -> was it ever seen with a value that
     /// differs from what `Default` would give (0, false, None, "", empty)? A field that all
     /// instances of an entry leave at its default could be dropped by a round trip unnoticed.
-    pub fields: std::collections::BTreeMap<String, bool>,
+    pub fields: std::collections::BTreeMap<String, FieldSeen>,
+    /// panic text when using the ORIGINAL value panicked (observed as behaviour, listed in evidence)
+    pub original_panics: Option<String>,
+}
+
+/// what the instances of an entry showed at one serialised leaf path
+#[derive(Clone, Debug, Default)]
+pub struct FieldSeen {
+    /// a value different from what Default gives
+    pub nondefault: bool,
+    /// null (None) seen: the field is optional
+    pub null: bool,
+    /// a present scalar equal to zero / false / "" seen (for an optional field: Some(0))
+    pub zero: bool,
+    /// text leaves (unit enum variants, error kinds ...), first few distinct ones
+    pub texts: std::collections::BTreeSet<String>,
+}
+impl FieldSeen {
+    pub fn merge(&mut self, o: &FieldSeen) {
+        self.nondefault |= o.nondefault;
+        self.null |= o.null;
+        self.zero |= o.zero;
+        for t in &o.texts {
+            if self.texts.len() < 16 {
+                self.texts.insert(t.clone());
+            }
+        }
+    }
 }
 
 /// feeds a value that does not go through `round_trip` (hand-written guard scenarios) to the field audit
@@ -251,23 +278,34 @@ pub fn audit<T: Serialize>(o: &mut Out, v: &T) {
 /// audit path so that all nodes of a tree are audited as one struct
 const RECURSIVE_FIELDS: [&str; 2] = ["left_child", "right_child"];
 
-fn audit_walk(v: &ciborium::value::Value, path: &str, out: &mut std::collections::BTreeMap<String, bool>) {
+fn audit_walk(v: &ciborium::value::Value, path: &str, out: &mut std::collections::BTreeMap<String, FieldSeen>) {
     use ciborium::value::Value as V;
-    let mut leaf = |nondefault: bool| {
-        let e = out.entry(path.to_string()).or_insert(false);
-        *e = *e || nondefault;
+    // kind: 0 = null, 1 = present zero-like scalar, 2 = present non-default scalar, 3 = empty container
+    let mut leaf = |kind: u8, text: Option<&str>| {
+        let e = out.entry(path.to_string()).or_default();
+        match kind {
+            0 => e.null = true,
+            1 => e.zero = true,
+            2 => e.nondefault = true,
+            _ => {}
+        }
+        if let Some(t) = text {
+            if e.texts.len() < 16 && t.len() <= 40 {
+                e.texts.insert(t.to_string());
+            }
+        }
     };
     match v {
-        V::Integer(i) => leaf(i128::from(*i) != 0),
-        V::Float(f) => leaf(*f != 0.0),
-        V::Bool(b) => leaf(*b),
-        V::Null => leaf(false),
-        V::Text(t) => leaf(!t.is_empty()),
-        V::Bytes(b) => leaf(!b.is_empty()),
+        V::Integer(i) => leaf(if i128::from(*i) != 0 { 2 } else { 1 }, None),
+        V::Float(f) => leaf(if *f != 0.0 { 2 } else { 1 }, None),
+        V::Bool(b) => leaf(if *b { 2 } else { 1 }, None),
+        V::Null => leaf(0, None),
+        V::Text(t) => leaf(if !t.is_empty() { 2 } else { 1 }, Some(t)),
+        V::Bytes(b) => leaf(if !b.is_empty() { 2 } else { 1 }, None),
         V::Tag(_, inner) => audit_walk(inner, path, out),
         V::Array(a) => {
             if a.is_empty() {
-                leaf(false);
+                leaf(3, None);
             }
             for x in a {
                 audit_walk(x, &format!("{}[]", path), out);
@@ -275,14 +313,18 @@ fn audit_walk(v: &ciborium::value::Value, path: &str, out: &mut std::collections
         }
         V::Map(m) => {
             if m.is_empty() {
-                leaf(false);
+                leaf(3, None);
             }
             for (k, x) in m {
                 match k {
                     V::Text(t) if RECURSIVE_FIELDS.contains(&t.as_str()) => {
                         // presence of a child is itself a field value (Option<Box<..>>)
-                        let e = out.entry(format!("{}.{}", path, t)).or_insert(false);
-                        *e = *e || !matches!(x, V::Null);
+                        let e = out.entry(format!("{}.{}", path, t)).or_default();
+                        if matches!(x, V::Null) {
+                            e.null = true;
+                        } else {
+                            e.nondefault = true;
+                        }
                         audit_walk(x, path, out)
                     }
                     V::Text(t) => audit_walk(x, &format!("{}.{}", path, t), out),
@@ -290,13 +332,13 @@ fn audit_walk(v: &ciborium::value::Value, path: &str, out: &mut std::collections
                 }
             }
         }
-        _ => leaf(true),
+        _ => leaf(2, None),
     }
 }
 
 impl Out {
     pub fn new(entry: &str, instance: &str) -> Out {
-        Out { entry: entry.to_string(), instance: instance.to_string(), variant: crate::data::variant(), viols: Vec::new(), cnt: Counters::default(), per_format: Default::default(), sample: None, fields: Default::default() }
+        Out { entry: entry.to_string(), instance: instance.to_string(), variant: crate::data::variant(), viols: Vec::new(), cnt: Counters::default(), per_format: Default::default(), sample: None, fields: Default::default(), original_panics: None }
     }
     pub fn case(&self, format: &str) -> Value {
         json!({"entry": self.entry, "instance": self.instance, "variant": self.variant, "format": format})
@@ -339,9 +381,20 @@ fn sanitize(n: &str) -> String {
 ///  (3) every observation identical bit for bit, (4) bytes(value') == bytes(value),
 ///  (5) value'' = de(bytes(value')) observes identically again (double round trip).
 pub fn round_trip<T: Serialize + DeserializeOwned>(o: &mut Out, spec: &Spec<T>, v: &T) {
+    // a panic while using the ORIGINAL value (boundary parameter points on which a fit panics ...)
+    // is not C19's subject: the panic text becomes the observation, the restored value must behave
+    // the same; such instances are listed in the evidence
+    let panic_obs = |p: String| {
+        let mut ob = Ob::new();
+        ob.st("observe.panic", p);
+        ob.done()
+    };
     let obs0 = match guarded(|| (spec.observe)(v)) {
         Ok(x) => x,
-        Err(p) => o.machinery(&format!("observing the ORIGINAL value panicked: {}", p)),
+        Err(p) => {
+            o.original_panics = Some(p.clone());
+            panic_obs(p)
+        }
     };
     let dbg0 = spec.debug.map(|d| d(v));
     let mut formats: Vec<Format> = BINARY_FORMATS.to_vec();
@@ -458,7 +511,16 @@ fn compare<T>(o: &mut Out, spec: &Spec<T>, v: &T, restored: &T, obs0: &Ob, dbg0:
             }
         }
     }
-    match guarded(|| (spec.observe)(restored)) {
+    let r1 = guarded(|| (spec.observe)(restored));
+    let r1 = match r1 {
+        Err(p) if o.original_panics.is_some() => {
+            let mut ob = Ob::new();
+            ob.st("observe.panic", p);
+            Ok(ob.done())
+        }
+        x => x,
+    };
+    match r1 {
         Ok(obs1) => {
             o.cnt.observations_compared += obs0.0.len() as u64;
             o.cnt.predictions_compared += obs0.count_prefixed("predict") + obs0.count_prefixed("transform");
